@@ -46,17 +46,20 @@ Definition valid_frame (data : list Z) : bool :=
 
 Definition even_down (z : Z) : Z := 2 * (z / 2).
 
-Definition vframe_of (f : mframe) : vframe :=
+(** For a still picture the options that only exist inside an ANMF header (blend,
+    dispose; duration is 0 by definition of "still") are not part of the view, as
+    are loop count and background colour (ANIM chunk). *)
+Definition vframe_of (anim : bool) (f : mframe) : vframe :=
   let '(a, b) := match frame_parts (f_data f) with Some p => p | None => (None, f_data f) end in
   let fo := f_opts f in
   mkvf b a (even_down (o_ox fo)) (even_down (o_oy fo)) (o_dur fo)
-       (o_blend fo =? 1) (o_dispose fo =? 1).
+       (anim && (o_blend fo =? 1)) (anim && (o_dispose fo =? 1)).
 
 (** what was put into the muxer *)
 Definition view_of_mux (m : mstate) : view :=
   let anim := is_animated m in
   let '(cw, ch) := canvas_size m in
-  mkview (map vframe_of (m_frames m)) cw ch anim
+  mkview (map (vframe_of anim) (m_frames m)) cw ch anim
          (if anim then m_loop m else 0) (if anim then m_bg m else 0)
          (m_icc m) (m_exif m) (m_xmp m).
 
